@@ -201,6 +201,14 @@ def run(ctx):
                  E.encode_sequence(E.encode_integer(0), E.encode_sequence(alg, c.encoded_oid), E.encode_integer(7)),
                  E.encode_sequence(E.encode_integer(0), E.encode_sequence(), E.encode_octet_string(sk.to_der())),
                  E.encode_sequence(E.encode_integer(2), E.encode_sequence(alg, c.encoded_oid), E.encode_octet_string(sk.to_der()))]
+        # containers nested far deeper than any recursion limit (a PKCS#8 key whose privateKey is again a PKCS#8 key, ...)
+        nest = sk.to_der(format="pkcs8")
+        seqnest = E.encode_integer(1)
+        for _ in range(1200):
+            nest = E.encode_sequence(E.encode_integer(0), E.encode_sequence(alg, c.encoded_oid), E.encode_octet_string(nest))
+            seqnest = E.encode_sequence(seqnest)
+        priv += [nest, seqnest]
+        spki += [seqnest, E.encode_sequence(E.encode_sequence(alg, c.encoded_oid), E.encode_bitstring(nest, 0))]
         points = [m for enc in ("raw", "uncompressed", "compressed", "hybrid") for m in mutations(vk.to_string(enc), subs[:8], rnd, 1500)]
         # coordinates that are not reduced modulo the field prime, in every point encoding
         pp, L_ = c.curve.p(), (len("%x" % c.curve.p()) + 1) // 2
